@@ -27,6 +27,25 @@ NOT_APPLICABLE = {p: 'check under construction in this session; not claimed unti
                   for p in ['C%02d' % i for i in range(1, 21)]}
 
 PROPS = {
+    'C11': dict(
+        claimed=True,
+        level='exploration',
+        level_text="Generated histories of concurrent Subscribe/Unsubscribe/Ping calls (quit nil / closed / fired later) against the "
+                   "broker model, which answers in any drawn order, twice, unsolicited, with any subset of failed filters, while "
+                   "connections break, writes fail or park and goroutines are parked at the slot-release hook points; optional "
+                   "Close at the end. Every return value is validated against the event log (own packet, own response, loss "
+                   "within lifetime, quit rules) and every call must return once its resolving event happened (hang oracle).",
+        technique='stateful property-based testing (rapid) with gate-controlled schedules; per-call validity predicate over the event log',
+        rule="actions {sub/unsub (1-4 unique filters)/ping with quit in {nil, closed, fired later}, answer (any owed response, "
+             "drawn return codes incl. 0x80, optional duplicate), unsolicited SUBACK/UNSUBACK/PINGRESP, fireQuit, break, "
+             "armWrite(reset|timeout|park|timeout-with-progress), releaseWrite, gate/releaseGate on {sub,unsub}.{fail,quit}, "
+             "appStep}, then Close or drain. The interleaving of finding F7 (a Ping issued while an earlier Ping may still run "
+             "its epilogue) is excluded by construction and counted; TestC11KnownF07 reproduces it deterministically. "
+             "Non-trivial: >= 2 requests in flight when a response, a connection loss or a quit arrived.",
+        assumptions=ASSUME_SIM,
+        quick=dict(engines=[rapid('^TestC11Requests', 2400, steps=40), rapid('^TestC11KnownF07', 3, shards=1, fixed=True)]),
+        thorough=dict(engines=[rapid('^TestC11Requests', 60000, shards=14, steps=70, timeout=1500), rapid('^TestC11KnownF07', 3, shards=1, fixed=True)]),
+    ),
     'C12': dict(
         claimed=True,
         level='exploration',
@@ -118,8 +137,8 @@ PROPS = {
              "record is excluded by construction while finding F17 is open (counted in excluded_by_known_finding). "
              "Non-trivial: >= 1 damaged record among >= 2 pending ones.",
         assumptions=ASSUME_SIM + ["a truncation to >= 12 bytes or a byte flip passes the 32-bit checksum with probability 2^-32; such forged-valid records are outside the property"],
-        quick=dict(engines=[rapid('^TestC16Damage', 800, steps=30), rapid('^TestC16KnownF17', 40, shards=1)]),
-        thorough=dict(engines=[rapid('^TestC16Damage', 20000, shards=14, steps=50, timeout=1500), rapid('^TestC16KnownF17', 200, shards=1)]),
+        quick=dict(engines=[rapid('^TestC16Damage', 800, steps=30), rapid('^TestC16KnownF17', 40, shards=1, fixed=True)]),
+        thorough=dict(engines=[rapid('^TestC16Damage', 20000, shards=14, steps=50, timeout=1500), rapid('^TestC16KnownF17', 200, shards=1, fixed=True)]),
     ),
     'C17': dict(
         claimed=True,
